@@ -11,4 +11,6 @@ globals().update(build('C07', 'Metric values equal their mathematical definition
     'harness.agg.retrieval',
     'harness.agg.text',
     'harness.agg.generated',   # translate/scalar.py: generated scalar definitions (self-check + theorems)
+    'harness.agg.histories',   # reads interleaved with add / merge / merge_states on the same state objects (SC07)
+    'harness.agg.conditioning',  # ill-conditioned float64 data vs exact rationals, derived tolerance (SC07)
 ]))
